@@ -1,4 +1,4 @@
-import LitexModel.Fhdl.Print
+import LitexModel.Fhdl.FitsStmt
 /-
   C01 — token-level (prefix notation) readers for the trees exchanged with the harness, and structural
   comparison of Verilog trees with a path to the first difference.  Used by `Driver/C01.lean` only; nothing
@@ -116,5 +116,155 @@ def diffVs : List VExpr → List VExpr → Option String
     | none => (diffVs es es').map ("+" ++ ·)
   | _, _ => some "length"
 end
+
+
+/-! ### Statements and modules
+
+  FHDL stmt    : A <lhs> <rhs> | I <cond> <nT> stmts.. <nF> stmts.. | W <test> <nitems> (k kw ks <n> stmts..).. <hasD> [<n> stmts..]
+  Verilog stmt : a <lhs> <rhs> | f <cond> <nT> stmts.. <hasElse> <nF> stmts.. | w <test> <nitems> (<vexpr> <n> stmts..).. <hasD> [<n> stmts..]
+-/
+
+mutual
+partial def parseFS : List String → Option (Stmt × List String)
+  | "A" :: r => do
+    let (l, r) ← parseFE r
+    let (e, r) ← parseFE r
+    some (.assign l e, r)
+  | "I" :: r => do
+    let (c, r) ← parseFE r
+    let (t, r) ← parseFSsN r
+    let (f, r) ← parseFSsN r
+    some (.ite c t f, r)
+  | "W" :: r => do
+    let (t, r) ← parseFE r
+    match r with
+    | n :: r =>
+      let (items, r) ← parseFItems (← n.toNat?) r
+      match r with
+      | "1" :: r => do let (d, r) ← parseFSsN r; some (.case t items true d, r)
+      | "0" :: r => some (.case t items false .nil, r)
+      | _ => none
+    | _ => none
+  | _ => none
+/-- `<n> stmt..` -/
+partial def parseFSsN : List String → Option (Stmts × List String)
+  | n :: r => do parseFSs (← n.toNat?) r
+  | _ => none
+partial def parseFSs : Nat → List String → Option (Stmts × List String)
+  | 0, r => some (.nil, r)
+  | n + 1, r => do
+    let (s, r) ← parseFS r
+    let (ss, r) ← parseFSs n r
+    some (.cons s ss, r)
+partial def parseFItems : Nat → List String → Option (Items × List String)
+  | 0, r => some (.nil, r)
+  | n + 1, k :: kw :: ks :: r => do
+    let (body, r) ← parseFSsN r
+    let (rest, r) ← parseFItems n r
+    some (.cons (← k.toInt?) (← kw.toNat?) (← parseBool ks) body rest, r)
+  | _, _ => none
+end
+
+mutual
+partial def parseVS : List String → Option (VStmt × List String)
+  | "a" :: r => do
+    let (l, r) ← parseVE r
+    let (e, r) ← parseVE r
+    some (.nba l e, r)
+  | "f" :: r => do
+    let (c, r) ← parseVE r
+    let (t, r) ← parseVSsN r
+    match r with
+    | he :: r =>
+      let (f, r) ← parseVSsN r
+      some (.ite c t (← parseBool he) f, r)
+    | _ => none
+  | "w" :: r => do
+    let (t, r) ← parseVE r
+    match r with
+    | n :: r =>
+      let (items, r) ← parseVItems (← n.toNat?) r
+      match r with
+      | "1" :: r => do let (d, r) ← parseVSsN r; some (.case t items true d, r)
+      | "0" :: r => some (.case t items false .nil, r)
+      | _ => none
+    | _ => none
+  | _ => none
+partial def parseVSsN : List String → Option (VStmts × List String)
+  | n :: r => do parseVSs (← n.toNat?) r
+  | _ => none
+partial def parseVSs : Nat → List String → Option (VStmts × List String)
+  | 0, r => some (.nil, r)
+  | n + 1, r => do
+    let (s, r) ← parseVS r
+    let (ss, r) ← parseVSs n r
+    some (.cons s ss, r)
+partial def parseVItems : Nat → List String → Option (VItems × List String)
+  | 0, r => some (.nil, r)
+  | n + 1, r => do
+    let (k, r) ← parseVE r
+    let (body, r) ← parseVSsN r
+    let (rest, r) ← parseVItems n r
+    some (.cons k body rest, r)
+end
+
+mutual
+def diffVS : VStmt → VStmt → Option String
+  | .nba l r, .nba l' r' =>
+    match diffV l l' with
+    | some p => some ("lhs." ++ p)
+    | none => (diffV r r').map ("rhs." ++ ·)
+  | .ite c t he f, .ite c' t' he' f' =>
+    match diffV c c' with
+    | some p => some ("cond." ++ p)
+    | none =>
+      if he != he' then some "else-presence" else
+      match diffVSs t t' with
+      | some p => some ("then." ++ p)
+      | none => (diffVSs f f').map ("else." ++ ·)
+  | .case t items hd d, .case t' items' hd' d' =>
+    match diffV t t' with
+    | some p => some ("test." ++ p)
+    | none =>
+      if hd != hd' then some "default-presence" else
+      match diffVItems items items' with
+      | some p => some ("item." ++ p)
+      | none => (diffVSs d d').map ("default." ++ ·)
+  | _, _ => some "stmt-kind"
+def diffVSs : VStmts → VStmts → Option String
+  | .nil, .nil => none
+  | .cons s ss, .cons s' ss' =>
+    match diffVS s s' with
+    | some p => some ("s." ++ p)
+    | none => (diffVSs ss ss').map ("+" ++ ·)
+  | _, _ => some "stmt-count"
+def diffVItems : VItems → VItems → Option String
+  | .nil, .nil => none
+  | .cons k b r, .cons k' b' r' =>
+    match diffV k k' with
+    | some p => some ("key." ++ p)
+    | none =>
+      match diffVSs b b' with
+      | some p => some ("body." ++ p)
+      | none => (diffVItems r r').map ("+" ++ ·)
+  | _, _ => some "item-count"
+end
+
+def diffItem : VItem → VItem → Option String
+  | .assign l r, .assign l' r' =>
+    match diffV l l' with
+    | some p => some ("assign.lhs." ++ p)
+    | none => (diffV r r').map ("assign.rhs." ++ ·)
+  | .comb b, .comb b' => (diffVSs b b').map ("comb." ++ ·)
+  | .sync c b, .sync c' b' => if c != c' then some "sync.clock" else (diffVSs b b').map ("sync." ++ ·)
+  | _, _ => some "item-kind"
+
+def diffItems : Nat → List VItem → List VItem → Option String
+  | _, [], [] => none
+  | n, a :: as, b :: bs =>
+    match diffItem a b with
+    | some p => some (s!"item{n}." ++ p)
+    | none => diffItems (n + 1) as bs
+  | n, _, _ => some s!"item{n}.count"
 
 end Litex.C01
